@@ -200,14 +200,20 @@ def exchange_library():
     L["get_connect_get"] = dict(q=[R(b"GET", b"/r0", H), C, R(b"GET", b"/r2", H)],
                                 s=[A(200, hdrs=[(b"X-Id", b"0")], body=b"a"), A(403, b"No", hdrs=[(b"X-Id", b"1")], body=b""), A(200, hdrs=[(b"X-Id", b"2")], body=b"c")], n=3, cls="resume")
     for ex in L.values():
-        ex["qstarts"] = [sum(len(m) for m in ex["q"][:i]) for i in range(len(ex["q"]))]
-        ex["sstarts"] = [sum(len(m) for m in ex["s"][:i]) for i in range(len(ex["s"]))]
-        ex["q"] = b"".join(ex["q"]); ex["s"] = b"".join(ex["s"])
+        finish_exchange(ex)
     return L
 
 
+def finish_exchange(ex):
+    """message lists -> streams; qstarts[i] = stream offset at which the head of request i is complete."""
+    ex["qstarts"] = [sum(len(m) for m in ex["q"][:i]) + ex["q"][i].index(b"\r\n\r\n") + 4 for i in range(len(ex["q"]))]
+    ex["sstarts"] = [sum(len(m) for m in ex["s"][:i]) for i in range(len(ex["s"]))]
+    ex["q"] = b"".join(ex["q"]); ex["s"] = b"".join(ex["s"])
+
+
 def legal(arr, qstarts, sstarts):
-    """C04 legality: the first byte of response i arrives only after the first byte of request i has arrived."""
+    """Legality of a schedule (C04/C16): the first byte of response i arrives only after the head of request i (request
+    line and headers) has arrived - a server cannot answer what it has not seen; bodies may still be in flight (Expect)."""
     qa = sa = 0
     for k, v in arr:
         if k == ">":
@@ -215,7 +221,7 @@ def legal(arr, qstarts, sstarts):
         elif k == "<":
             for i, st in enumerate(sstarts):
                 if sa <= st < sa + len(v):
-                    if i >= len(qstarts) or qa <= qstarts[i]:
+                    if i >= len(qstarts) or qa < qstarts[i]:
                         return False
             sa += len(v)
     return True
